@@ -28,14 +28,20 @@ TYPES = {
     "int?": dict(default=None, values=[None, 0, 1, 2], allowed=[1, 3]),
     "file?": dict(default=None, values=[None, False, True], allowed=[True]),
     "any": dict(default=None, values=[None, False, "", "u", 0], allowed=["u", 1]),
+    # C32 only (never drawn by the C31 streams)
+    "int": dict(default=0, values=[0, 1, 2], allowed=[1, 3]),
+    "strs": dict(default=["x", "y"], values=[["x", "y"], [], ["q"]], allowed=[]),
+    "pair": dict(default=(1, 2), values=[(1, 2), (3, 4)], allowed=[]),
 }
+C32_POOL = IN_SCOPE + ["int", "int?", "strs", "pair", "strM"]
 
 
 def py_type(tag):
     import typing as ty
     from fileformats.generic import File
     return {"str": str, "str?": str | None, "bool": bool, "bool?": bool | None, "strM": str,
-            "int?": int | None, "file?": File | bool | None, "any": ty.Any}[tag]
+            "int?": int | None, "file?": File | bool | None, "any": ty.Any, "int": int, "strs": list[str],
+            "pair": tuple[int, int], "file": File, "float": float, "dict": dict[str, int], "tupleAny": ty.Any}[tag]
 
 
 def _requires_arg(reqs):
@@ -55,18 +61,24 @@ def build_python(spec, side_file=None):
         if f.get("requires"):
             kw["requires"] = _requires_arg(f["requires"])
         d = f.get("default", TYPES[f["type"]]["default"])
-        if d != UNSET:
+        if not (isinstance(d, str) and d == UNSET):
             kw["default"] = d
+        if f.get("allowed_values"):
+            kw["allowed_values"] = f["allowed_values"]
         inputs[f["name"]] = python.arg(**kw)
     names = [f["name"] for f in spec["fields"]]
     fname = spec.get("name", "Gen")
     src = "def %s(%s):\n" % (fname, ", ".join(names))
     if side_file:
         src += "    with open(%r, 'a') as fh:\n        fh.write('x\\n')\n" % side_file
-    src += "    return repr((%s))\n" % "".join(n + ", " for n in names)
+    nout = len(spec["outputs"]) if spec.get("outputs") else 1
+    ret = "repr((%s))" % "".join(n + ", " for n in names)
+    src += "    return %s\n" % (ret if nout == 1 else "(" + ", ".join([ret] * nout) + ")")
     ns = {}
     exec(src, ns)
-    return python.define(ns[fname], inputs=inputs, outputs=["out"], xor=[list(x) for x in spec.get("xor", [])])
+    outputs = {o["name"]: python.out(type=py_type(o["type"]), help=o.get("help", "")) for o in spec["outputs"]} \
+        if spec.get("outputs") else ["out"]
+    return python.define(ns[fname], inputs=inputs, outputs=outputs, xor=[list(x) for x in spec.get("xor", [])])
 
 
 def build_shell(spec):
@@ -80,11 +92,36 @@ def build_shell(spec):
         if f.get("requires"):
             kw["requires"] = _requires_arg(f["requires"])
         d = f.get("default", TYPES[f["type"]]["default"])
-        if d != UNSET:
+        if not (isinstance(d, str) and d == UNSET):
             kw["default"] = d
+        if f.get("allowed_values"):
+            kw["allowed_values"] = f["allowed_values"]
         inputs[f["name"]] = shell.arg(**kw)
-    return shell.define(spec.get("executable", "echo"), inputs=inputs, name=spec.get("name", "GenCmd"),
+    outputs = {}
+    for o in spec.get("outputs", []):
+        if o["cls"] == "outarg":
+            kw = dict(type=py_type(o["type"]), help=o.get("help", ""), argstr=o.get("argstr", "--" + o["name"]))
+            for k in ("path_template", "position", "default"):
+                if k in o:
+                    kw[k] = o[k]
+            if "keep_extension" in o:
+                kw["keep_extension"] = o["keep_extension"]
+            outputs[o["name"]] = shell.outarg(**kw)
+        else:
+            outputs[o["name"]] = shell.out(type=py_type(o["type"]), help=o.get("help", ""), callable=OUT_CALLABLES[o["callable"]])
+    return shell.define(spec.get("executable", "echo"), inputs=inputs, outputs=outputs, name=spec.get("name", "GenCmd"),
                         xor=[list(x) for x in spec.get("xor", [])])
+
+
+def count_chars(stdout: str) -> int:
+    return len(stdout)
+
+
+def first_word(stdout: str) -> str:
+    return stdout.split()[0] if stdout.split() else ""
+
+
+OUT_CALLABLES = {"count_chars": count_chars, "first_word": first_word}
 
 
 # ------------------------------------------------------------------ reading the real objects back
@@ -151,7 +188,7 @@ def parse_errors(errors):
 
 
 def make_task(cls, spec, assignment):
-    kw = {f["name"]: v for f, v in zip(spec["fields"], assignment) if v != UNSET}
+    kw = {f["name"]: v for f, v in zip(spec["fields"], assignment) if not (isinstance(v, str) and v == UNSET)}
     return cls(**kw)
 
 
@@ -320,4 +357,71 @@ def malformed_def(rng, n):
     else:
         f = rng.choice(spec["fields"])
         f["requires"] = f.get("requires", []) + [[["zz", None]]]
+    return spec
+
+
+# ------------------------------------------------------------------ C32: definitions with richer metadata
+HELPS = ["", "", "the value", "a flag; use with care", "path (see docs)"]
+
+
+def sample_def32(rng, n=None):
+    """A C31-style definition (requires, xor) decorated with the metadata unstructure() has to carry: help, explicit
+    defaults, allowed_values, and for shell: argstr forms, explicit (also negative) positions, sep, outarg fields with
+    a path template, out fields with a callable; for python: typed outputs with help."""
+    n = n or rng.choice([1, 2, 3, 3, 4, 5])
+    spec = sample_def(rng, n, pool=C32_POOL)
+    shell = spec["kind"] == "shell"
+    used_pos = set()
+    for f in spec["fields"]:
+        f["help"] = rng.choice(HELPS)
+        t = f["type"]
+        if t in ("str", "int") and rng.random() < 0.3:
+            f["allowed_values"] = {"str": ["", "u", "v", "x"], "int": [0, 1, 2, 3]}[t]
+        if t == "int" and rng.random() < 0.5:
+            f["default"] = rng.choice([0, 1, 7])
+        if t == "str" and rng.random() < 0.4:
+            f["default"] = rng.choice(["", "u"]) if f.get("allowed_values") else rng.choice(["", "dflt", " "])
+        if t == "bool" and rng.random() < 0.2:
+            f["default"] = True
+        if shell:
+            r = rng.random()
+            if r < 0.2:
+                f["argstr"] = ""
+            elif r < 0.4:
+                f["argstr"] = "-" + f["name"]
+            elif r < 0.5 and t not in ("bool", "bool?"):
+                f["argstr"] = "--%s={%s}" % (f["name"], f["name"])
+            if t == "strs":
+                f["sep"] = rng.choice([None, ",", ":"])
+                if rng.random() < 0.3:
+                    f["argstr"] = "-%s..." % f["name"]
+            if rng.random() < 0.35:
+                pos = rng.choice([1, 2, 3, 4, -1, -2])
+                if pos not in used_pos:
+                    used_pos.add(pos)
+                    f["position"] = pos
+    if shell:
+        outs = []
+        if rng.random() < 0.5:
+            src = rng.choice(spec["fields"])["name"]
+            o = {"name": "o1", "cls": "outarg", "type": "file", "path_template": rng.choice(["out.txt", "{%s}_out" % src]),
+                 "help": rng.choice(HELPS)}
+            if rng.random() < 0.3:
+                o["keep_extension"] = False
+            if rng.random() < 0.3:
+                o["argstr"] = "-o"
+            outs.append(o)
+        if rng.random() < 0.3:
+            outs.append({"name": "o2", "cls": "outarg", "type": "file?", "default": None, "path_template": "o2.dat"})
+        if rng.random() < 0.4:
+            outs.append({"name": "p", "cls": "out", "type": rng.choice(["int", "str"]), "callable": "count_chars",
+                         "help": rng.choice(HELPS)})
+        spec["outputs"] = outs
+        for o in outs:                         # file? outargs accept True/False/None
+            if o["cls"] == "outarg" and o["type"] == "file?":
+                pass
+    else:
+        if rng.random() < 0.5:
+            spec["outputs"] = [{"name": nm, "type": "str", "help": rng.choice(HELPS)}
+                               for nm in rng.choice([["res"], ["res", "aux"]])]
     return spec
